@@ -116,17 +116,24 @@ theorem onetailed_result_in_bounds (a b x y : F) (script rest : List F)
     (h : oneTailedLoop a b script x = some (y, rest)) :
     a ≤ y ∧ y ≤ b ∧ ∃ k, rest = script.drop k := oneTailedLoop_result a b script x y rest h
 
-/-- Any deviate `0 ≤ s ≤ b − a` ends the loop in that pass. -/
-theorem onetailed_exits_on_small_draw (a b x s : F) (rest : List F) (_hab : a < b)
-    (hout : x < a ∨ b < x) (h0 : 0 ≤ s) (h1 : s ≤ b - a) :
-    oneTailedLoop a b (s :: rest) x = some (if x < a then a + s else b - s, rest) := by
+/-- Any standard-normal deviate within three standard deviations (`0 ≤ |z| ≤ 3`, i.e. a resampled
+offset `(b − a)/3 · |z| ≤ b − a`) ends the loop in that pass. -/
+theorem onetailed_exits_on_small_draw (a b x s : F) (rest : List F) (hab : a < b)
+    (hout : x < a ∨ b < x) (h0 : 0 ≤ s) (h1 : s ≤ 3) :
+    oneTailedLoop a b (s :: rest) x =
+      some (if x < a then a + (b - a) / 3 * s else b - (b - a) / 3 * s, rest) := by
+  have hd : 0 < b - a := by linarith
+  have hsd : 0 ≤ (b - a) / 3 * s := mul_nonneg (by positivity) h0
+  have hle : (b - a) / 3 * s ≤ b - a := by
+    have : (b - a) / 3 * s ≤ (b - a) / 3 * 3 := mul_le_mul_of_nonneg_left h1 (by positivity)
+    linarith [this]
   simp only [oneTailedLoop]
   by_cases hx : x < a
   · simp only [hx, if_true]
-    exact oneTailedLoop_inside a b rest (a + s) (by linarith) (by linarith)
+    exact oneTailedLoop_inside a b rest _ (by linarith) (by linarith)
   · have hx2 : x > b := by rcases hout with h | h; exact absurd h hx; exact h
     simp only [hx, hx2, if_false, if_true]
-    exact oneTailedLoop_inside a b rest (b - s) (by linarith) (by linarith)
+    exact oneTailedLoop_inside a b rest _ (by linarith) (by linarith)
 
 /-- A coordinate inside is returned unchanged and consumes no deviate; hence the operator is idempotent. -/
 theorem onetailed_fix_inside (a b x : F) (script : List F) (h1 : a ≤ x) (h2 : x ≤ b) :
@@ -168,6 +175,11 @@ theorem mirror_solution_in_bounds [FloorRing F] (sol : List F) (dom : List (F ×
       ∀ k (hk : k < ys.length) (hk' : k < dom.length), dom[k].1 ≤ ys[k] ∧ ys[k] ≤ dom[k].2 :=
   zipDomainM_all (mirror fuel) (fun d y => d.1 ≤ y ∧ y ≤ d.2) sol dom hl
     (fun k hk hk' => mirror_returns dom[k].1 dom[k].2 sol[k] (hd _ (List.getElem_mem hk')) fuel (hf k hk hk'))
+/-- The resampling operator on a whole solution: if it returns, every coordinate is within its own bounds. -/
+theorem onetailed_solution_in_bounds (sol : List F) (dom : List (F × F)) (script ys rest : List F)
+    (hl : sol.length = dom.length) (h : oneTailedSolution sol dom script = some (ys, rest)) :
+    ∀ k (hk : k < ys.length) (hk' : k < dom.length), dom[k].1 ≤ ys[k] ∧ ys[k] ≤ dom[k].2 :=
+  oneTailedSolution_in_bounds sol dom script ys rest hl h
 end Solutions
 
 /-! ### Every operator keeps the dimension of the solution -/
@@ -178,7 +190,7 @@ theorem repair_keeps_dimension {F : Type} (f : F → F × F → F) (g : F → F 
     (∀ ys, zipDomainM g xs dom = some ys → ys.length = xs.length) :=
   ⟨zipDomain_length f xs dom, zipDomainM_length g xs dom⟩
 
-theorem onetailed_keeps_dimension {F : Type} [Add F] [Sub F] [LT F] [DecidableLT F]
+theorem onetailed_keeps_dimension {F : Type} [Add F] [Sub F] [Mul F] [Div F] [LT F] [DecidableLT F] [OfNat F 3]
     (xs : List F) (dom : List (F × F)) (script ys rest : List F)
     (h : oneTailedSolution xs dom script = some (ys, rest)) : ys.length = xs.length :=
   oneTailedSolution_length xs dom script ys rest h
@@ -205,18 +217,37 @@ theorem init_count_dim_unevaluated {F : Type} (dom : List (F × F)) (n : Nat) (d
     obtain ⟨k, _, rfl⟩ := hi
     simp
 
-/-- Given `gen_range`'s contract (`draw i j ∈ [a_j, b_j)`), every coordinate of every individual
-lies within its domain bounds. -/
-theorem random_spread_in_domain {F : Type} [LT F] [LE F] (dom : List (F × F)) (n : Nat) (draw : Nat → Nat → F)
-    (hc : ∀ i j (hj : j < dom.length), dom[j].1 ≤ draw i j ∧ draw i j < dom[j].2) :
-    ∀ s ∈ randomSpread dom n draw, s.length = dom.length ∧
-      ∀ j (hj : j < dom.length) (hs : j < s.length), dom[j].1 ≤ s[j] ∧ s[j] < dom[j].2 := by
-  intro s hs
-  simp only [randomSpread, List.mem_map, List.mem_range] at hs
-  obtain ⟨i, _, rfl⟩ := hs
-  refine ⟨by simp, ?_⟩
-  intro j hj hs
-  simpa using hc i j hj
+/-- The sampler's contract, per draw: the value returned for coordinate `j` of any individual lies in
+the range that was passed to THAT call, i.e. `domain[j]` (half-open, as `gen_range(a..b)` promises). -/
+def SamplerContract {F : Type} [LT F] [LE F] (dom : List (F × F)) (draw : Nat → Nat → F) : Prop :=
+  ∀ i j (hj : j < dom.length), dom[j].1 ≤ draw i j ∧ draw i j < dom[j].2
+
+/-- The assembled population of `RandomSpread`: pushed as ONE new population of exactly `n`
+unevaluated individuals, each of the problem's dimension, every coordinate `k` of every individual
+within the bounds of ITS OWN dimension `k` — for per-dimension different ranges. -/
+theorem random_spread_population {F : Type} [LT F] [LE F] (stack : List (List (Ind (List F))))
+    (dom : List (F × F)) (n : Nat) (draw : Nat → Nat → F) (hc : SamplerContract dom draw) :
+    (initPush stack (randomSpread dom n draw)).length = stack.length + 1 ∧
+    ∃ pop, (initPush stack (randomSpread dom n draw)).getLast? = some pop ∧ pop.length = n ∧
+      ∀ ind ∈ pop, ind.evaluated = false ∧ ind.sol.length = dom.length ∧
+        ∀ k (hk : k < ind.sol.length) (hd : k < dom.length), dom[k].1 ≤ ind.sol[k] ∧ ind.sol[k] < dom[k].2 := by
+  refine ⟨by simp [initPush], intoIndividuals (randomSpread dom n draw), by simp [initPush], by simp [intoIndividuals, randomSpread], ?_⟩
+  intro ind hind
+  simp only [intoIndividuals, randomSpread, List.map_map, List.mem_map, List.mem_range] at hind
+  obtain ⟨i, _, rfl⟩ := hind
+  refine ⟨rfl, by simp, ?_⟩
+  intro k hk hd
+  simpa using hc i k hd
+
+/-- A sampler that ignores the per-coordinate range (one range for all coordinates) does NOT satisfy
+the contract on a domain with different ranges: the hypothesis is about the sampler, not the result. -/
+example : ¬ SamplerContract [((0 : Int), (1 : Int)), (10, 20)] (fun _ _ => 0) := by
+  intro h; have := (h 0 1 (by decide)).1; revert this; decide
+example : SamplerContract [((0 : Int), (1 : Int)), (10, 20), (-5, -4)]
+    (fun _ j => if j = 0 then 0 else if j = 1 then 15 else -5) := by
+  intro i j hj
+  have : j = 0 ∨ j = 1 ∨ j = 2 := by simp at hj; omega
+  rcases this with rfl | rfl | rfl <;> simp
 
 /-- `RandomPermutation`: for every legal shuffle witness each individual is a permutation of all
 positions `0..dim`, and there are exactly `n` of them. -/
@@ -234,6 +265,34 @@ theorem random_permutation_perm (dim n : Nat) (σ : Nat → List Nat) (pops : Li
     obtain ⟨i, hi, hsh⟩ := this
     exact shuffleBy_perm (σ i) (List.range dim) p hsh (by simpa using hσ i hi)
 
+/-- … and for legal witnesses the model does not panic (every `σ i` has a source for each position). -/
+theorem random_permutation_returns (dim n : Nat) (σ : Nat → List Nat)
+    (hσ : ∀ i < n, (σ i).Perm (List.range dim)) :
+    ∃ pops, randomPermutation dim n σ = some pops := by
+  unfold randomPermutation
+  have : ∀ l : List Nat, (∀ i ∈ l, i < n) →
+      ∃ pops, l.mapM (fun i => shuffleBy (σ i) (List.range dim)) = some pops := by
+    intro l
+    induction l with
+    | nil => intro _; exact ⟨[], rfl⟩
+    | cons a t ih =>
+      intro h
+      obtain ⟨ps, hps⟩ := ih (fun i hi => h i (by simp [hi]))
+      have ha := hσ a (h a (by simp))
+      obtain ⟨r, hr⟩ : ∃ r, shuffleBy (σ a) (List.range dim) = some r := by
+        unfold shuffleBy
+        have hall : ∀ i ∈ σ a, i < (List.range dim).length := by
+          intro i hi; simpa using ha.mem_iff.mp hi
+        generalize σ a = w at hall
+        induction w with
+        | nil => exact ⟨[], rfl⟩
+        | cons x w ihw =>
+          obtain ⟨r, hr⟩ := ihw (fun i hi => hall i (by simp [hi]))
+          have hx := hall x (by simp)
+          exact ⟨(List.range dim)[x] :: r, by simp [List.mapM_cons, List.getElem?_eq_getElem hx, hr]⟩
+      exact ⟨r :: ps, by simp [List.mapM_cons, hr, hps]⟩
+  exact this (List.range n) (by intro i hi; simpa using hi)
+
 /-- `RandomBitstring` with a probability in `[0,1]` creates `n` bitstrings of the problem's dimension. -/
 theorem random_bitstring_shape (dim n : Nat) (bit : Nat → Nat → Bool) :
     ∃ pops, randomBitstring dim n true bit = some pops ∧ pops.length = n ∧ ∀ s ∈ pops, s.length = dim := by
@@ -250,7 +309,7 @@ theorem random_bitstring_shape (dim n : Nat) (bit : Nat → Nat → Bool) :
 example : saturation (7 : Int) (-1, 1) = some 1 := by decide
 example : mirrorIter (-1 : Int) 1 3 7 = -1 := by decide
 example : mirrorLoop (-10 : Int) 10 5 (-65) = some 5 := by decide
-example : oneTailedLoop (0 : Int) 10 [12, 3] (-4) = some (7, []) := by decide
+example : oneTailedLoop (0 : Int) 9 [5, 1] (-4) = some (6, []) := by decide
 example : randomPermutation 3 2 (fun i => if i = 0 then [2, 0, 1] else [1, 0, 2]) = some [[2, 0, 1], [1, 0, 2]] := by decide
 example : ([2, 0, 1] : List Nat).Perm (List.range 3) := by decide
 example : ∀ d ∈ [((-1 : Rat), (1 : Rat)), (0, 10)], d.1 < d.2 := by
